@@ -992,6 +992,17 @@ def run(tier):
               'a missing record turns each comparison into an exception that '
               'the workers report as "rejected" (shared with C10.R5)',
               sub10)
+    # the verdict belongs to the candidate: the file the command reads is
+    # private to the check that wrote it (shared with C01.R4)
+    from . import c01
+    sub01 = Check('C01', 'other', tier, [], [])
+    chk.guard(c01.rule_r4, sub01, prog)
+    Check.restrict(sub01, lambda wh, what: wh.startswith('tmpfiles.')
+                   or 'Thread' in what or wh == 'checker.check_exprs')
+    chk.adopt('C09.R10', 'the candidate file is written completely before '
+              'the command starts and is private to the check (process and, '
+              'with thread pools, thread): the accepted/rejected verdict is '
+              'the one of this candidate (shared with C01.R4)', sub01)
     extra = None
     if tier == 'thorough':
         from .. import selftest
